@@ -106,6 +106,79 @@ def tree_diff(a, b):
     return bad
 
 
+def model_expected(drv, dump, fs, prec, zero, delim, skip):
+    """the text dirfile2ascii must print according to the extracted Coq model (coq/C20/Ascii2.v), given what gd_getdata
+    returned (utilref dump).  Returns a list of lines whose cells are strings or None (= not determined: interpolation
+    that reads unread memory, %a of a computed value, NaN sign)."""
+    lines = dump.split("\n")
+    ff, nf = [int(x) for x in lines[1].split()[1:3]]
+    cols = []
+    i = 2
+    while i < len(lines) and lines[i].startswith("field "):
+        _, _, spf, nread, want = lines[i].split()
+        spf, nread, want = int(spf), int(nread), int(want)
+        vals = [l.split("\t") for l in lines[i + 1:i + 1 + want]]
+        cols.append((spf, nread, vals))
+        i += 1 + want
+    if len(cols) != len(fs):
+        return None
+    inp = "%d %d %d %d %s\n" % (nf, skip, 1 if zero != "-" else 0, len(cols), " ".join("%d %d" % (c[0], c[1]) for c in cols))
+    rc, out = vlib.sh([drv], inp=inp.encode(), timeout=60)
+    out = out.strip()
+    res = []
+    if out == "":
+        return res
+    for row in out.split(";"):
+        kj, cells = row.split(":")
+        k = int(kj.split(",")[0])
+        line = []
+        for ci, cell in enumerate(cells.split(" ")):
+            spf, nread, vals = cols[ci]
+            conv = fs[ci][0]
+            if cell == "F":
+                line.append(zero)
+            elif cell[0] == "D":
+                idx = int(cell[1:])
+                line.append(vals[idx][0] if 0 <= idx < len(vals) else None)
+            else:
+                at, lo, hi, num, den = [int(x) for x in cell[1:].split(",")]
+                lim = nread if zero != "-" else len(vals)     # with -z the buffer is not padded past n_read
+                if not all(0 <= x < lim for x in (at, lo, hi)) or conv in "aA":
+                    line.append(None); continue
+                isf = conv in "eEfFgG"
+                raw = lambda x: float.fromhex(vals[x][1]) if isf else float(int(vals[x][1]))
+                prev = at - k * spf
+                diff = (float(prev) + float(num) / float(den)) - float(prev)
+                slope = (raw(hi) - raw(lo)) / (float(prev + 1) - float(prev))
+                val = raw(at) + diff * slope
+                if val != val or val in (float("inf"), float("-inf")):
+                    line.append(None); continue
+                p = "" if prec == "-" else prec
+                try:
+                    if isf:
+                        line.append(("%" + p + conv) % val)
+                    else:
+                        if any(ch in p for ch in "+ #0"):
+                            line.append(None)      # python and C differ on flags of integer conversions: not compared
+                        else:
+                            line.append(("%" + p + {"i": "d", "u": "d", "x": "x", "X": "X", "o": "o"}[conv]) % int(val))
+                except (ValueError, OverflowError):
+                    line.append(None)
+        res.append(line)
+    return res
+
+
+def lines_match(got, want_cells, delim):
+    """got: output lines of the tool; want_cells: list of lists of str|None"""
+    if len(got) != len(want_cells):
+        return False
+    for g, w in zip(got, want_cells):
+        pat = re.escape(delim).join(".*?" if t is None else re.escape(t) for t in w)
+        if not re.fullmatch(pat, g, re.S):
+            return False
+    return True
+
+
 def build_tools(impl):
     """cxxdiff + the two utilities + the reference, cached in the impl build dir under a hash of their sources"""
     cf = open(os.path.join(impl, "cflags")).read().strip()
@@ -167,6 +240,14 @@ def main():
                 continue
             chk.violation("build", "build failed: " + str(e)[:2000], {"kind": "build", "log": str(e)}, found=False)
             return chk.finish()
+    try:
+        okm, logm = vlib.coq_make(["C20/Ascii2.vo"])
+        drv = vlib.build_ocaml_driver("C20", "C20/Extract.v", "ocaml/C20/driver.ml") if okm else None
+    except vlib.BuildError as e:
+        drv, logm = None, str(e)
+    if drv is None:
+        chk.violation("model-build", "coq/C20/Ascii2.v does not compile/extract: " + logm[-1500:], {"kind": "model-build", "log": logm[-4000:]}, found=False)
+        return chk.finish()
     work = vlib.scratch("C20-")
     # 3. C++ wrappers vs C functions
     ndf = 6 if not chk.thorough else 40
@@ -204,6 +285,8 @@ def main():
                        "how": "checks/C20.py make_dirfile(variant) twice (A,B); harness/C20/cxxdiff A B <seed> <rounds>"}))
     # 4. dirfile2ascii
     cells = 0
+    model_cells = 0
+    model_bad = []
     a = os.path.join(work, "U")
     ascii_bad = []
     nua = 3 if not chk.thorough else 12
@@ -213,7 +296,8 @@ def main():
         n, spf2 = make_dirfile(a, sub, variant)
         fieldsets = [["fdata"], ["edata", "iflt", "ubit"], ["ifast", "uf2"], ["xdata", "ifast"], ["glin", "Eph", "omul", "Xcst"],
                      ["fnosuchfield"], ["idata", "flut", "gA_x_Z"], ["ff2"], ["adata", "Gpoly"],
-                     ["idata", "ifast"], ["ibit", "xf2", "ifast"], ["udata", "if2", "emul"], ["isbit", "odata"]] + ([["fdang"]] if variant == 1 else [])
+                     ["idata", "ifast"], ["ibit", "xf2", "ifast"], ["udata", "if2", "emul"], ["isbit", "odata"],
+                     ["Edata", "Xfast", "Fflt"], ["Gflt", "Aflt", "aflt"], ["eflt", "ffast", "gf2"], ["Xf2", "xdata", "odata", "udata"]] + ([["fdang"]] if variant == 1 else [])
         ranges = [(0, 0), (1, 3), (2, 0), (n - 1, 1), (n, 2), (0, n + 3), (-1, 2), (3, 1)]
         for fs in fieldsets:
             for (ff, nf) in (ranges if chk.thorough else sub.sample(ranges, 4) + [(0, n + 3)]):
@@ -241,6 +325,8 @@ def main():
                         cmd += ["-z", zero]
                     if delim != " ":
                         cmd += ["-d", delim]
+                    if sub.random() < 0.15:
+                        cmd.append("-b")        # boxcar is compiled out: must only warn
                     cmd.append(a)
                     for f in fs:
                         cmd += (["-" + f[0], f[1:]] if f[0] != "f" else [f[1:]])
@@ -259,6 +345,18 @@ def main():
                         continue
                     want = r[1:]
                     got = o1.split("\n")
+                    # primary comparison: the extracted Coq model of the print loop decides which element of what
+                    # gd_getdata returned goes where
+                    rcd, od = vlib.sh([os.path.join(tools, "utilref"), "dump", a, str(ff), str(nf), prec] + fs, timeout=60)
+                    if od.startswith("status 0") and "readerror" not in od:
+                        exp = model_expected(drv, od.rstrip("\n"), fs, prec, zero, delim, skip)
+                        if exp is not None:
+                            gl = o1.split("\n")
+                            if gl and gl[-1] == "":
+                                gl = gl[:-1]
+                            model_cells += sum(1 for l in exp for c in l if c is not None)
+                            if rc1 != 0 or not lines_match(gl, exp, delim):
+                                model_bad.append((cmd, o1[:300], "\n".join(delim.join("~" if c is None else c for c in l) for l in exp)[:300]))
                     ok = rc1 == 0 and len(got) == len(want)
                     if ok:
                         for g, w in zip(got, want):
@@ -276,6 +374,11 @@ def main():
         chk.violation("util/dirfile2ascii", "dirfile2ascii: %s: %s\n got: %r\nwant: %r (%d such runs)" % (what, " ".join(cmd[1:]), o1, o2, len(ascii_bad)),
                       {"kind": "impl-vs-spec", "cmd": cmd, "got": o1, "want": o2, "count": len(ascii_bad),
                        "format": open(os.path.join(a, "format")).read()})
+    if model_bad and not ascii_bad:
+        cmd, o1, o2 = model_bad[0]
+        chk.violation("model/dirfile2ascii", "correspondence broken: dirfile2ascii %s prints %r, the model of its print loop (coq/C20/Ascii2.v) applied to the "
+                      "gd_getdata output gives %r (%d such runs); the cell-by-cell library reference agrees with the tool" % (" ".join(cmd[1:]), o1, o2, len(model_bad)),
+                      {"kind": "model-vs-impl", "cmd": cmd, "got": o1, "model": o2, "count": len(model_bad)}, found=False)
     # 5. checkdirfile
     nchk = 0
     for i in range(9 if not chk.thorough else 45):
@@ -325,6 +428,7 @@ def main():
     chk.cov["distinct_nontrivial"] = ncmp + cells + nchk
     chk.cov["cxx_comparisons"] = ncmp
     chk.cov["ascii_cells"] = cells
+    chk.cov["ascii_cells_by_extracted_model"] = model_cells
     chk.cov["checkdirfile_runs"] = nchk
     chk.cov["rule"] = ("%d x 5 twin dirfiles (valid / dangling inputs and aliases / syntax errors, with and without a parser callback, read-only): every "
                        "Dirfile, Fragment and Entry method with its C counterpart -- getters of every entry and metaentry against gd_entry, list and "
